@@ -44,6 +44,16 @@ def make_convention(conv):
         # no edge_dimension attribute: the edge grid is implied by the one edge table the file has
         ds = builders.ugrid('tqp', supply=('edge_node',), edge_dimension_attr=False)
         return ds, UGrid(ds)
+    if conv == 'ugrid-noedge':
+        # a mesh that has no edges at all: two grids, and a variable on neither is on no grid
+        ds = builders.ugrid('tqp')
+        return ds, UGrid(ds)
+    if conv == 'cf1d-named':
+        # coordinate variables without identifying attributes, named by the caller
+        ds = builders.cf1d(2, 3, ydim='lat', xdim='lon', lat_name='northing', lon_name='easting', as_coords=False,
+                           lat_attrs=dict(units='m', standard_name='projection_y_coordinate'),
+                           lon_attrs=dict(units='m', standard_name='projection_x_coordinate'))
+        return ds, CFGrid1D(ds, latitude='northing', longitude='easting')
     if conv == 'ugrid-edges-declared':
         # the mesh names an edge dimension that no variable uses (the edge variables were dropped): faces and nodes
         # are wound as ever
@@ -62,6 +72,20 @@ def sym_array(ctx, shape, name='v'):
     return arr
 
 
+def ref_dims(conv, kind):
+    """The dimensions of each grid, in the documented order (latitude before longitude, j before i), written from the
+    convention texts and the datasets built here - not read back from the code under test."""
+    if conv.startswith('cf1d'):
+        return ('lat', 'lon')
+    if conv == 'cf2d':
+        return ('y', 'x')
+    if conv == 'shoc_simple':
+        return ('j', 'i')
+    if conv == 'shoc_standard':
+        return tuple(builders.SHOC_DIMS[kind])
+    return {'face': ('nface',), 'node': ('nnode',), 'edge': ('nedge',)}[kind]
+
+
 def expected_grid(convention, kind_obj):
     dims = list(convention.grid_dimensions[kind_obj])
     sizes = [convention.dataset.sizes[d] for d in dims]
@@ -72,6 +96,7 @@ def body_roundtrip(ctx, conv, kind, extras, perm, linear_name, wind_by, coords=F
     ds, convention = make_convention(conv)
     kind_obj = next(k for k in convention.grid_kinds if k.value == kind)
     gdims, gsizes = expected_grid(convention, kind_obj)
+    ctx.check(tuple(gdims) == ref_dims(conv, kind), 'the grid dimensions are the documented ones, in the documented order')
     size = int(numpy.prod(gsizes))
     extras = [(n, size if sz == 'grid' else sz) for n, sz in extras]      # 'grid': a dimension exactly as long as the flattened grid
     names = list(gdims) + [n for n, _ in extras]
@@ -147,6 +172,7 @@ def body_wind_first(ctx, conv, kind, extras, position, by, fortran=False):
     ds, convention = make_convention(conv)
     kind_obj = next(k for k in convention.grid_kinds if k.value == kind)
     gdims, gsizes = expected_grid(convention, kind_obj)
+    ctx.check(tuple(gdims) == ref_dims(conv, kind), 'the grid dimensions are the documented ones, in the documented order')
     size = int(numpy.prod(gsizes))
     extras = [(n, size if sz == 'grid' else sz) for n, sz in extras]      # 'grid': a dimension exactly as long as the flattened grid
     lin = 'cells'
@@ -251,6 +277,7 @@ def body_default_linear_collision(ctx, conv, taken):
     ds, convention = make_convention(conv)
     kind_obj = convention.default_grid_kind
     gdims, gsizes = expected_grid(convention, kind_obj)
+    ctx.check(tuple(gdims) == ref_dims(conv, kind_obj.value), 'the grid dimensions are the documented ones, in the documented order')
     dims = list(taken) + list(gdims)
     shape = tuple([2] * len(taken) + gsizes)
     values = sym_array(ctx, shape)
@@ -271,7 +298,8 @@ def body_default_linear_collision(ctx, conv, taken):
 
 KINDS = {'cf1d': ['face'], 'cf2d': ['face'], 'shoc_simple': ['face'],
          'shoc_standard': ['face', 'left', 'back', 'node'], 'ugrid': ['face', 'edge', 'node'],
-         'ugrid-implied': ['edge'], 'ugrid-implied-ef': ['edge'], 'ugrid-edges-declared': ['face', 'node']}
+         'ugrid-implied': ['edge'], 'ugrid-implied-ef': ['edge'], 'ugrid-edges-declared': ['face', 'node'],
+         'ugrid-noedge': ['face', 'node'], 'cf1d-named': ['face']}
 
 
 def cases(tier):
